@@ -788,7 +788,7 @@ class Extractor:
             raise Unsupported('call depth / recursion at %s' % q)
         f = self.src.funcs[q]
         env = {k: v for k, v in benv.items() if k not in f.stored}
-        local = self.walk(f, f.node.body, env, set(), depth)
+        local = self.walk(f, getattr(f, 'body', None) or f.node.body, env, set(), depth)
         out = []
         for items, status in local:
             if status in ('break', 'continue'):
@@ -900,6 +900,48 @@ class Extractor:
                          for items, status in paths if any(x[0] == 'ev' and x[1] == ('call', 'Qube.clone') for x in items)
                          and status == 'ret']
                 tab[g.qual] = {'file': f.file, 'line': f.node.lineno, 'end_line': f.node.end_lineno, 'paths': plist}
+        return tab
+
+    # ---- the derivatives of self, written directly by a mutator of self (not through their own public mutators)
+    def deriv_alias_table(self):
+        """for every loop `for k, d in self._derivs_.items()` of an eventful function whose body writes to d's
+        attributes or calls d's low-level helpers: the events as seen by the derivative object d"""
+        tab = {}
+        for q in sorted(self.eventful or ()):
+            f = self.src.funcs[q]
+            n_loop = 0
+            for n in ast.walk(f.node):
+                if not isinstance(n, ast.For):
+                    continue
+                it = n.iter
+                if not (isinstance(it, ast.Call) and isinstance(it.func, ast.Attribute)
+                        and is_self_attr(it.func.value, f.selfname, '_derivs_')):
+                    continue
+                alias = None
+                if it.func.attr == 'items' and isinstance(n.target, ast.Tuple) and len(n.target.elts) == 2 \
+                        and isinstance(n.target.elts[1], ast.Name):
+                    alias = n.target.elts[1].id
+                if it.func.attr == 'values' and isinstance(n.target, ast.Name):
+                    alias = n.target.id
+                if alias is None:
+                    continue
+                g = Func('%s@%s#%d' % (q, alias, n.lineno), f.cls, f.name, f.node, f.file)
+                g.selfname = alias
+                g.body = n.body
+                g.derived_from = f.selfname
+                self.src.funcs[g.qual] = g
+                try:
+                    paths = self.flat(g.qual, {}, 0)
+                except Unsupported as e:
+                    self.failures.append('%s (%s:%d): %s' % (g.qual, f.file, n.lineno, e))
+                    continue
+                plist = []
+                for items, status in paths:
+                    evs = [('mayFill',) if x[0] == 'fill' else x[1] for x in items]
+                    if any(e[0] in ('write', 'cacheClear', 'cacheDel', 'cacheFreeze') for e in evs) and evs not in plist:
+                        plist.append(evs)
+                if plist:
+                    tab[g.qual] = {'file': f.file, 'line': n.lineno, 'end_line': n.end_lineno, 'paths': plist}
         return tab
 
     # ---- the table
@@ -1104,6 +1146,7 @@ def render_lean(tab, failures, root, der=None):
     L.append('')
     L.append('/-- NEW objects built from `self.clone(retain_cache=True)` (qube.py:1010-1018) and then modified: the paths')
     L.append('    of the new object, whose cache starts as a copy of the original\'s (returning paths through the clone) -/')
+    der, dal = der if isinstance(der, tuple) else (der, {})
     dn = []
     for q in sorted(der or {}):
         ident = 'd_' + re.sub(r'\W', '_', q)
@@ -1118,6 +1161,19 @@ def render_lean(tab, failures, root, der=None):
     L.append('def derivedTable : Table := [')
     L.append(',\n'.join('  ("%s", %s)' % (q, i) for q, i in dn))
     L.append(']')
+    L.append('')
+    L.append('/-- derivative objects of self written DIRECTLY by a mutator of self (loops over self._derivs_): the events')
+    L.append('    as seen by the derivative object (its own public mutators are rows of `publicTable`) -/')
+    an = []
+    for q in sorted(dal or {}):
+        ident = 'a_' + re.sub(r'\W', '_', q)
+        an.append((q, ident))
+        L.append('def %s : List (List Event) := [' % ident)
+        L.append(',\n'.join('  [' + ', '.join(lean_event(e) for e in evs) + ']' for evs in dal[q]['paths']))
+        L.append(']')
+    L.append('def derivAliasTable : Table := [')
+    L.append(',\n'.join('  ("%s", %s)' % (q, i) for q, i in an))
+    L.append(']')
     L.append('end PMV.Gen.EventPaths')
     return '\n'.join(L) + '\n'
 
@@ -1128,11 +1184,12 @@ def generate(root=None, derived=False):
     try:
         tab = ex.table()
         der = ex.derived_table()
+        ex.deriv_alias = ex.deriv_alias_table()
     except Exception as e:          # the translator itself broke on this source: tie broken, never silent
         tab = {}
         ex.failures.append('translator crashed: %s: %s' % (type(e).__name__, e))
     if derived:
-        return tab, ex.failures, der
+        return tab, ex.failures, (der, getattr(ex, 'deriv_alias', {}))
     return tab, ex.failures
 
 
